@@ -466,6 +466,7 @@ pub fn property() -> Property {
         id: "C20",
         rule: "One abasic-lsp child process (stdio, Content-Length framing) per case: initialize, initialized, then 1-12 steps over {didOpen(text), didChange(full text), semanticTokens/full}, then shutdown and exit. Texts: C05's document generator, documents with non-ASCII text inside strings and REMs before other tokens, raw Unicode, and typing sequences (a document growing character by character through every intermediate text of its last line). Oracle: every step is answered and the process exits 0 after exit (a dead process is a violation, a silent one is inconclusive); each diagnostic lies on an existing line with start <= end <= the line's length in UTF-16 units; semantic tokens decode to ordered, non-overlapping, non-empty tokens inside their lines in UTF-16 units with types inside the legend read from the initialize result; the set of (line, severity, message, columns) equals the in-process analyzer's messages with byte ranges converted to UTF-16 columns, and the tokens equal the analyzer's token ranges converted likewise. Each step is one evaluation. Non-trivial: a session with >= 1 diagnostic in a document with non-ASCII text or a duplicated line number; distinct by steps.",
         assumptions: vec!["only well-formed JSON-RPC traffic is sent", "a server that stays silent for 60 s is counted as inconclusive"],
+        fuzz: None,
         families,
         prelude: None,
         epilogue: None,
